@@ -129,6 +129,11 @@ func (fc *fnCtx) havocHeap(st *State, name string) {
 // loads and stores --------------------------------------------------------------
 
 func (fc *fnCtx) rootLoad(st *State, a *Addr) string {
+	if gl := fc.globalSyms[a.Key]; gl != nil && a.Root == rootElem {
+		if v, ok := fc.globalInit(gl, st); ok {
+			return Select(v.T, a.Idx)
+		}
+	}
 	switch a.Root {
 	case rootField, rootCell:
 		return Select(fc.H(st, a.Heap), a.Key)
